@@ -615,8 +615,8 @@ package generator
 //@   shape g = sgen(@registered) | sgen(@registered,@rootprops,@rootmapping) | sgen(@registered,@typedroot,@rootmapping)
 //@   setup map_put(g.schema.Definitions, "X", new_schema_type("object"))
 //@   ensures [C20,C10] definitions-are-declared-whatever-the-root: called_with("(*schemaGenerator).generateDeclaredType", 1, g.schema.Definitions["X"])
-//@   ensures [C16,C20] a-root-without-a-type-declares-nothing: len(g.schema.ObjectAsType.Type) == 0 ==> call_count("(*schemaGenerator).generateDeclaredType") == 1
-//@   ensures [C20] a-typed-root-is-declared: len(g.schema.ObjectAsType.Type) == 1 && result == nil ==> called_with("(*schemaGenerator).generateDeclaredType", 1, g.schema.ObjectAsType) && call_count("(*schemaGenerator).generateDeclaredType") == 2
+//@   ensures [C16,C20] a-root-without-a-type-declares-nothing: old(len(g.schema.ObjectAsType.Type)) == 0 ==> call_count("(*schemaGenerator).generateDeclaredType") == 1
+//@   ensures [C20] a-typed-root-is-declared: old(len(g.schema.ObjectAsType.Type)) == 1 && result == nil ==> called_with("(*schemaGenerator).generateDeclaredType", 1, g.schema.ObjectAsType) && call_count("(*schemaGenerator).generateDeclaredType") == 2
 //@   ensures [C18,C20] declaration-errors-propagate: call_failed("(*schemaGenerator).generateDeclaredType") ==> result != nil
 //@ func (*schemaGenerator).generateRootType@taken
 //@   props C20 C10
